@@ -95,9 +95,12 @@ def build_shared(spec):
         elif t == "repeat":
             blk = sp.Repeat(blocks[b["of"]], cs)
         elif t == "merge":
-            blk = sp.Merge([blocks[k] for k in b["of"]], cs, B._mode(b["mode"]), B._align(b["alignment"]))
+            # without constraints the library's default argument is used, as a user would
+            blk = (sp.Merge([blocks[k] for k in b["of"]], cs, B._mode(b["mode"]), B._align(b["alignment"])) if cs else
+                   sp.Merge([blocks[k] for k in b["of"]], mode=B._mode(b["mode"]), alignment=B._align(b["alignment"])))
         else:
-            blk = sp.Nest(blocks[b["outer"]], blocks[b["inner"]], cs, B._align(b["alignment"]))
+            blk = (sp.Nest(blocks[b["outer"]], blocks[b["inner"]], cs, B._align(b["alignment"])) if cs else
+                   sp.Nest(blocks[b["outer"]], blocks[b["inner"]], alignment=B._align(b["alignment"])))
         blocks.append(blk)
     return blocks
 
